@@ -55,7 +55,7 @@ def code_lines(text):
             break
     for i in range(cut):
         s = lines[i].strip()
-        if not s or s.startswith('//') or s.startswith('#[') or s.startswith('use ') or '"' in s or 'tracing::' in s or 'debug!' in s or 'trace!' in s:
+        if not s or s.startswith('//') or s.startswith('#[') or s.startswith('use ') or ('"' in s and os.environ.get('MUTCAMP_MODE', 'token') == 'token') or 'tracing::' in s or 'debug!' in s or 'trace!' in s:
             continue
         out.append(i)
     return lines, out
@@ -75,7 +75,14 @@ def main():
         text = open(os.path.join(WT, f)).read()
         lines, idx = code_lines(text)
         cands = []
+        mode = os.environ.get('MUTCAMP_MODE', 'token')
         for i in idx:
+            if mode == 'delete':
+                st = lines[i].strip()
+                # whole-statement deletion: single-line statements that are not declarations
+                if st.endswith(';') and not st.startswith(('let ', 'return', 'use ', 'pub ', 'const ', 'break', 'continue')) and st.count('(') == st.count(')'):
+                    cands.append((i, -1, 0, len(lines[i])))
+                continue
             for k, (pat, rep) in enumerate(OPS):
                 for m in re.finditer(pat, lines[i]):
                     cands.append((i, k, m.start(), m.end()))
@@ -86,7 +93,7 @@ def main():
             if done >= per_file or tried >= 6 * per_file:
                 break
             tried += 1
-            new_line = lines[i][:a] + OPS[k][1] + lines[i][b:]
+            new_line = '' if k == -1 else lines[i][:a] + OPS[k][1] + lines[i][b:]
             mutated = '\n'.join(lines[:i] + [new_line] + lines[i + 1:])
             open(os.path.join(WT, f), 'w').write(mutated)
             t0 = time.time()
